@@ -230,10 +230,22 @@ int main(int argc, char ** argv)
     DeepSteerStats ds;
     long deep_events = getenv("VERIF_DEEP_EVENTS") ? atol(getenv("VERIF_DEEP_EVENTS")) : 0;
     if (deep_events > 0) {
-      ds = deep_steer(R.tape, seed, (stream0 << 24) + (1ULL << 23), thr, deep_events, 4, [&](const std::string & steer, size_t & d) {
+      // two passes: branch signatures alone (reaches the deep cascades), then signatures together with the number of deviates
+      // consumed - an accept/reject decision of a rejection sampler changes the count, not the branch, so only this pass puts
+      // candidates on both sides of every acceptance boundary (a wrong envelope or charge in a rare beta branch moves it slightly)
+      ds = deep_steer(R.tape, seed, (stream0 << 24) + (1ULL << 23), thr, deep_events - deep_events / 3, 4, [&](const std::string & steer, size_t & d) {
         d = R.one(steer);
         return R.last_sig;
       });
+      DeepSteerStats ds2 = deep_steer(R.tape, seed, (stream0 << 24) + (1ULL << 23) + 64, thr, deep_events / 3, 4, [&](const std::string & steer, size_t & d) {
+        d = R.one(steer);
+        return R.last_sig * 1000003ull + (uint64_t)d;
+      });
+      ds.events += ds2.events;
+      ds.nodes_expanded += ds2.nodes_expanded;
+      ds.nodes_found += ds2.nodes_found;
+      ds.max_depth = std::max(ds.max_depth, ds2.max_depth);
+      ds.frontier_left += ds2.frontier_left;
     }
     // emit
     Stats & s = R.st;
